@@ -135,13 +135,183 @@ def _common_unit(values):
     return e if all(abs(Fraction(v) / Fraction(2) ** e) <= 512 for v in vals) else None
 
 
-def _stream_objectives(case):
-    """the job objectives of a stream case: compact form (`jobs` = integer vectors or failure labels,
-    value = integer * 2^unit_exp) or raw form (`objectives`)"""
+def _stream_raw(case):
+    """the job objectives of a stream case as Python floats: compact form (`jobs` = integer vectors or failure
+    labels, value = integer * 2^unit_exp) or raw form (`objectives`)"""
     if "jobs" in case:
         u = 2.0 ** case.get("unit_exp", 0)
         return [j if isinstance(j, str) else tuple(float(v) * u for v in j) for j in case["jobs"]]
     return [o if isinstance(o, str) else tuple(float(v) for v in o) for o in case["objectives"]]
+
+
+# NUMERIC KIND of every component of every job (`case["kinds"]`, one string per job, one letter per component;
+# "" for a failed job).  A run-function may return `(1, 2)` for one job and `(0.5, 2.5)` for the next, NumPy integers,
+# single-precision floats, a flag next to a number: the recorder's value is the hypervolume of the VALUES.
+#   f Python float   F np.float64   s np.float32   i Python int   I np.int64   H np.int32   b bool   B np.bool_
+_KIND_CTOR = {"f": float, "F": np.float64, "s": np.float32, "i": int, "I": np.int64, "H": np.int32, "b": bool, "B": np.bool_}
+_KINDS_INT, _KINDS_BOOL, _KINDS_NARROW = "iIH", "bB", "sHbB"
+
+
+def _resolve_kinds(o, kinds, exact=True, narrow_ok=False):
+    """the kinds actually used for the float vector `o`: a requested kind that cannot hold the value EXACTLY is replaced
+    by a float (an integer kind needs an integral value, bool needs 0 or 1, single precision needs a representable value
+    on an exact stream; on a tolerance stream single precision rounds and the rounded value is the objective).
+    Kept outside the explored part on purpose (numpy artefacts of the unchanged code, not the property): a history of
+    bool-only vectors (`-np.asarray(...)` raises on dtype bool), and -- unless the stream was generated such that
+    single-precision / 32-bit arithmetic is exact on it (`narrow_ok`) -- a history of float32-only or int32-only vectors
+    (numpy then computes the whole hypervolume in that type)."""
+    ks = list((kinds or "").ljust(len(o), "f")[:len(o)])
+    for i, (v, k) in enumerate(zip(o, ks)):
+        if k not in _KIND_CTOR:
+            ks[i] = "f"
+        elif k in _KINDS_INT and not (float(v).is_integer() and abs(v) < (2 ** 31 if k == "H" else 2 ** 40)):
+            ks[i] = "f"
+        elif k in _KINDS_BOOL and v not in (0.0, 1.0):
+            ks[i] = "f"
+        elif k == "s" and (not math.isfinite(float(np.float32(v))) or (exact and float(np.float32(v)) != v)):
+            ks[i] = "f"
+    if ks and all(k in _KINDS_BOOL for k in ks):
+        ks[-1] = "i"
+    if ks and not narrow_ok and all(k in _KINDS_NARROW for k in ks):
+        ks[0] = {"s": "F", "H": "I"}.get(ks[0], "I")
+    return "".join(ks)
+
+
+def _mk_objective(o, container, kinds=None, exact=True, narrow_ok=False):
+    """the objective object a job carries; returns (object, pristine copy of an ndarray objective or None)"""
+    if isinstance(o, str):
+        return o, None
+    if kinds is not None:
+        comps = [_KIND_CTOR[k](v) for v, k in zip(o, _resolve_kinds(o, kinds, exact, narrow_ok))]
+        if container in ("ndarray", "intarray"):
+            obj = np.array(comps)          # dtype as numpy infers it from the components
+            return obj, obj.copy()
+        return (comps if container == "list" else tuple(comps)), None
+    if container == "list":
+        return [float(v) for v in o], None
+    if container == "ndarray":
+        obj = np.array(o, dtype=float)
+        return obj, obj.copy()
+    if container == "intarray" and all(float(v).is_integer() and abs(v) < 2 ** 40 for v in o):
+        obj = np.array([int(v) for v in o], dtype=np.int64)
+        return obj, obj.copy()
+    if container == "npscalar":
+        return tuple(np.float64(v) for v in o), None
+    return tuple(float(v) for v in o), None
+
+
+def _job_kinds(case):
+    ks = case.get("kinds")
+    n = len(case["jobs"] if "jobs" in case else case["objectives"])
+    return [None] * n if ks is None else [(ks[k] if k < len(ks) else "") for k in range(n)]
+
+
+def _stream_objectives(case):
+    """the job objectives of a stream case as the VALUES the recorder receives (a single-precision component of a
+    tolerance stream is the rounded number): this is what goes to Lean, exactly"""
+    raw = _stream_raw(case)
+    if case.get("kinds") is None:
+        return raw
+    exact, nok, cont = case.get("exact", True), bool(case.get("narrow_ok")), case.get("container", "tuple")
+    return [o if isinstance(o, str) else tuple(float(x) for x in _mk_objective(o, cont, kd, exact, nok)[0])
+            for o, kd in zip(raw, _job_kinds(case))]
+
+
+def _kinds_descr(case):
+    """numeric kinds of the vectors of a (shrunk) stream in order of first appearance, e.g. `int>float`"""
+    seen = []
+    exact, nok = case.get("exact", True), bool(case.get("narrow_ok"))
+    for o, kd in zip(_stream_raw(case), _job_kinds(case)):
+        if isinstance(o, str):
+            continue
+        ks = set(_resolve_kinds(o, kd, exact, nok))
+        c = ("int" if ks <= set(_KINDS_INT + _KINDS_BOOL) else "f32" if ks <= {"s"} else "float" if ks <= {"f", "F"}
+             else "int+float" if ks <= set(_KINDS_INT + _KINDS_BOOL + "fF") else "mixed")
+        if c not in seen:
+            seen.append(c)
+    return ">".join(seen)
+
+
+_KIND_PLANS = ["int-then-float", "int-then-float", "int-then-float", "float-then-int", "alternate", "per-component", "per-component",
+               "bool-mix", "f32-then-float", "float-then-f32", "f32-then-fine", "random", "random"]
+
+
+def _add_kinds(rng, case, plan=None):
+    """give every job of a generated stream a numeric kind that may CHANGE ALONG THE STREAM (in place; returns the case).
+    Exact streams get the unit 2^-1 .. 2^-3 so that integral and non-integral values occur side by side; the values of
+    the jobs that are to carry integers (bools) are rounded to integers (0 / 1) first."""
+    m = case["m"]
+    plan = plan or rng.choice(_KIND_PLANS)
+    key = "jobs" if "jobs" in case else "objectives"
+    jobs = case[key]
+    numeric = [k for k, j in enumerate(jobs) if not isinstance(j, str)]
+    n = len(numeric)
+    if plan == "f32-then-fine" and (m > 2 or key != "jobs"):
+        plan = "f32-then-float"
+    if key == "jobs":
+        top = max([abs(x) for k in numeric for x in jobs[k]] + [2])
+        e = 24 if plan == "f32-then-fine" else rng.choice([c for c in (1, 2, 3) if 2 ** c <= max(2, top // 2)])
+        case["unit_exp"] = -e          # (the threshold of the stopper is in units of unit^m: same place inside the range)
+        s = 2 ** e
+        if plan == "f32-then-fine" and case.get("threshold") is not None:
+            case["threshold"] = rng.randint(0, (4 * s) ** m)
+    else:
+        s = 1
+    ikind, fkind = rng.choice(["i", "i", "I", "I", "H"]), rng.choice(["f", "f", "f", "F"])
+    p = rng.choice([1, 1, 1, 2, 3, max(1, n // 2)])
+    kinds = [""] * len(jobs)
+
+    def to_int(x):
+        return s * int(round(x / s))
+
+    for t, k in enumerate(numeric):
+        v = list(jobs[k])
+        first = t < p
+        cls = {"int-then-float": "int" if first else rng.choice(["float"] * 4 + ["comp"]),
+               "float-then-int": "float" if first else rng.choice(["int"] * 4 + ["comp"]),
+               "alternate": ["int", "float"][(t + p) % 2],
+               "per-component": "comp", "bool-mix": "bool",
+               "f32-then-float": "f32" if first else rng.choice(["float", "float", "int", "f32"]),
+               "float-then-f32": "float" if first else rng.choice(["f32", "f32", "float", "int"]),
+               "f32-then-fine": "coarse" if first or rng.random() < 0.2 else "fine",
+               "random": rng.choice(["int", "float", "comp", "bool", "f32"])}[plan]
+        if cls == "int":
+            v, kd = [to_int(x) for x in v], ikind * m
+        elif cls == "float":
+            kd = fkind * m
+        elif cls == "f32":
+            kd = "s" * m
+        elif cls == "coarse":
+            # small integers in single precision, then (fine) values on a 2^-24 grid: exact in double precision only
+            v, kd = [s * rng.randint(-2, 2) for _ in v], "s" * m
+        elif cls == "fine":
+            v, kd = [rng.randint(-2 * s, 2 * s) for _ in v], fkind * m
+        else:
+            kd = ""
+            for i in range(m):
+                c = rng.choice("iiffIFsb" if cls == "comp" else "bbbifs")      # (np.bool_ is not generated: LoggerCallback cannot round() it)
+                if c in _KINDS_INT:
+                    v[i] = to_int(v[i])
+                elif c in _KINDS_BOOL:
+                    v[i] = s * rng.randint(0, 1)
+                kd += c
+        jobs[k], kinds[k] = v, kd
+    case["kinds"], case["kind_plan"] = kinds, plan
+    if case.get("container") not in ("tuple", "list", "ndarray"):
+        case["container"] = rng.choice(["tuple", "tuple", "list", "ndarray"])
+    # a history of single-precision-only (32-bit-integer-only) vectors is computed in that type by numpy: admitted only
+    # when every volume of such vectors is an integer below 2^22 in their common power-of-two unit (shrinking keeps that)
+    narrow = [jobs[k] for k in numeric if kinds[k] and all(c in _KINDS_NARROW for c in kinds[k])]
+    if narrow and key == "jobs":
+        g = 0
+        for v in narrow:
+            for x in v:
+                g = math.gcd(g, int(x))
+        g = (g & -g) if g else 1
+        span = max(max(v[i] for v in narrow) - min(v[i] for v in narrow) for i in range(m)) // g
+        case["narrow_ok"] = (span + 1) ** m <= 2 ** 22 and max(abs(x) for v in narrow for x in v) // g <= 2 ** 22
+    case["kind"] = case["kind"] + "+kinds"
+    return case
 
 
 def _expand(case):
@@ -669,22 +839,9 @@ class _Runner:
         self.metas.append(("scaled", sc_case, hs, None))
 
     # -- job streams on ONE recorder object (the glue in evaluator/callback.py)
-    def _mk_job(self, k, o, container, jobkind):
+    def _mk_job(self, k, o, container, jobkind, kinds=None, exact=True, narrow_ok=False):
         """a job as the evaluator hands it to the callbacks; returns (job, pristine copy of an ndarray objective or None)"""
-        if isinstance(o, str):
-            obj, keep = o, None
-        elif container == "list":
-            obj, keep = [float(v) for v in o], None
-        elif container == "ndarray":
-            obj = np.array(o, dtype=float)
-            keep = obj.copy()
-        elif container == "intarray" and all(float(v).is_integer() and abs(v) < 2 ** 40 for v in o):
-            obj = np.array([int(v) for v in o], dtype=np.int64)
-            keep = obj.copy()
-        elif container == "npscalar":
-            obj, keep = tuple(np.float64(v) for v in o), None
-        else:
-            obj, keep = tuple(float(v) for v in o), None
+        obj, keep = _mk_objective(o, container, kinds, exact, narrow_ok)
         job = None
         if jobkind == "hpo":
             try:
@@ -701,13 +858,21 @@ class _Runner:
         return job, keep
 
     def _drive(self, case, callbacks=True, count=True):
+        # (a single-precision history makes numpy warn "overflow encountered in cast" when _hv.py compares its
+        # sentinel -1.0e308 with a float32: the comparison is still right; keep stderr readable)
+        with np.errstate(over="ignore"):
+            return self._drive_(case, callbacks, count)
+
+    def _drive_(self, case, callbacks=True, count=True):
         """run the REAL recorder (one object) over the whole stream.  Returns a record:
         vals[k] = value returned after job k (float; nan if not a number), stops[k] = search_stopped of the
         deciding stopper, err = (k, exception) if a call raised, mutated = first k whose objective array changed"""
         from deephyper.evaluator.callback import ObjectiveRecorder
 
         ck = self.ck
-        objs = _stream_objectives(case)
+        objs = _stream_objectives(case)         # the values as handed in (what Lean gets)
+        raw, kinds = _stream_raw(case), _job_kinds(case)
+        exact, nok = case.get("exact", True), bool(case.get("narrow_ok"))
         container, jobkind = case.get("container", "tuple"), case.get("job", "ns")
         rec = ObjectiveRecorder()
         decoy_rec = ObjectiveRecorder() if case.get("decoy") else None
@@ -715,8 +880,8 @@ class _Runner:
         cbs = self._mk_callbacks(case) if callbacks else None
         out = {"objs": objs, "vals": [], "stops": [], "err": None, "mutated": None}
         kept = []
-        for k, o in enumerate(objs):
-            job, keep = self._mk_job(k, o, container, jobkind)
+        for k, o in enumerate(raw):
+            job, keep = self._mk_job(k, o, container, jobkind, kinds[k], exact, nok)
             kept.append((job, keep))
             try:
                 val = rec(job)
@@ -729,7 +894,7 @@ class _Runner:
                 v = float("nan")
             out["vals"].append(v)
             if cbs is not None:
-                self._callbacks(cbs, job, v, case, k)
+                self._callbacks(cbs, job, v, case, k, raw=val)
                 out["stops"].append(bool(getattr(cbs["decider"], "search_stopped", False)))
             if decoy_rec is not None and k < len(decoy):
                 d = decoy[k]
@@ -782,13 +947,20 @@ class _Runner:
         objs = rec["objs"]
         ck.count("stream:" + case.get("kind", "?").replace("stream-", ""))
         ck.count("stream-container:" + case.get("container", "tuple"))
+        kinds = _job_kinds(case)
+        if case.get("kinds") is not None:
+            ck.count("stream-kinds:" + str(case.get("kind_plan", "given")))
+            for o_, kd_ in zip(_stream_raw(case), kinds):
+                if not isinstance(o_, str):
+                    for c_ in set(_resolve_kinds(o_, kd_, case.get("exact", True), bool(case.get("narrow_ok")))):
+                        ck.count("stream-kind-letter:" + c_)
         n_num = sum(1 for o in objs if not isinstance(o, str))
         ck.count("stream-" + _hist_bucket(n_num))
         import hashlib
 
         h = hashlib.sha1(repr((case.get("m"), case.get("unit_exp"), case.get("container"))).encode())
         for k, o in enumerate(objs[:len(rec["vals"]) + (1 if rec["err"] else 0)]):
-            h.update(repr(o).encode())
+            h.update(repr((o, kinds[k])).encode())
             ck.case({"kind": case.get("kind", "stream"), "prefix": h.hexdigest()[:20], "n": k + 1}, nontrivial=k >= 1 and not isinstance(o, str))
         numeric = [o for o in objs if not isinstance(o, str)]
         mbr = _branch(len(numeric[0]) if numeric else 1)
@@ -820,6 +992,8 @@ class _Runner:
             c["jobs"] = c["jobs"][:k]
         else:
             c["objectives"] = c["objectives"][:k]
+        if c.get("kinds") is not None:
+            c["kinds"] = list(c["kinds"][:k])
         if "decoy" in case:
             c["decoy"] = case["decoy"][:k]
         return c
@@ -868,14 +1042,23 @@ class _Runner:
             base = dict(case)
             if not self._stream_bad(base, clause):
                 return case
-        jobs = list(base[key])
+        # a job and its numeric kinds go together
+        has_kinds = base.get("kinds") is not None
+        jobs = list(zip(base[key], _job_kinds(base)))
+
+        def mk(js, b=None):
+            c = {**(b or base), key: [j for j, _ in js]}
+            if has_kinds:
+                c["kinds"] = [kd for _, kd in js]
+            return c
+
         attempts, chunk = 0, max(1, len(jobs) // 2)
         while attempts < 250:
             i, removed = 0, False
             while i < len(jobs) and attempts < 250:
                 cand = jobs[:i] + jobs[i + chunk:]
                 attempts += 1
-                if cand and self._stream_bad({**base, key: cand}, clause):
+                if cand and self._stream_bad(mk(cand), clause):
                     jobs, removed = cand, True
                 else:
                     i += chunk
@@ -883,7 +1066,26 @@ class _Runner:
                 chunk = max(1, chunk // 2)
             elif not removed:
                 break
-        out = {**base, key: jobs, "shrunk_from": len(case[key])}
+        out = {**mk(jobs), "shrunk_from": len(case[key])}
+        if has_kinds:
+            # do the numeric kinds matter?  (all components as Python floats: the kind-free stream of the same values)
+            cand = {kk: v for kk, v in out.items() if kk not in ("kinds", "kind_plan", "narrow_ok")}
+            if "objectives" in cand:
+                cand["objectives"] = [o if isinstance(o, str) else list(o) for o in _stream_objectives(out)]
+            if self._stream_bad(cand, clause):
+                out = cand
+            else:
+                # plainer kinds where the failure survives them: Python int / float for the NumPy and bool ones, then job
+                # by job all components as Python floats
+                plain = str.maketrans("IHbBFs", "iiiiff")
+                cand = {**out, "kinds": [kd.translate(plain) for kd in out["kinds"]]}
+                if cand != out and self._stream_bad(cand, clause):
+                    out = cand
+                for i, kd in enumerate(out["kinds"][:12]):
+                    if kd.strip("f"):
+                        cand = {**out, "kinds": out["kinds"][:i] + ["f" * len(kd)] + out["kinds"][i + 1:]}
+                        if self._stream_bad(cand, clause):
+                            out = cand
         for simpler in ({"container": "tuple", "job": "ns"}, {"job": "ns"}, {"container": "tuple"}):
             cand = {**out, **simpler}
             if cand != out and self._stream_bad(cand, clause):
@@ -914,10 +1116,10 @@ class _Runner:
     def _report_stream(self, clause, case, k, detail):
         """shrink (first few per clause), classify, report"""
         self.nstream = getattr(self, "nstream", {})
-        key = (clause, _branch(case.get("m", 2)), _hist_bucket(k + 1))
+        key = (clause, _branch(case.get("m", 2)), _hist_bucket(k + 1), case.get("kinds") is not None)
         self.nstream[key] = self.nstream.get(key, 0) + 1
         sc = self._prefix(case, k + 1)
-        if self.nstream[key] > 1 or len(self.nstream) > 6:
+        if self.nstream[key] > 1 or len(self.nstream) > 8:
             # one shrunk replay per (clause, objectives, history length) class is enough
             self.ck.count(f"stream-{clause}-failures-not-shrunk")
             return
@@ -926,6 +1128,9 @@ class _Runner:
         numeric = [o for o in _stream_objectives(_expand(sc)) if not isinstance(o, str)]
         mbr = _branch(len(numeric[0]) if numeric else 1)
         extra = f"|{self._stream_class(_expand(sc))}|{_hist_bucket(len(numeric))}"
+        if sc.get("kinds") is not None:
+            # the failure needs the numeric kinds of the shrunk stream (it is gone when every component is a Python float)
+            extra += "|kinds=" + _kinds_descr(sc)
         what = {"exact": "value reported after a job differs from the exact hypervolume of the history so far (reference = componentwise worst point)",
                 "monotone": "value reported by one recorder object decreases when a job is added"}[clause]
         self.ck.fail(f"C12|{clause}|ObjectiveRecorder|{mbr}{extra}", f"ObjectiveRecorder: {what} ({mbr})", sc, detail)
@@ -937,6 +1142,15 @@ class _Runner:
         lean = rep["values"]
         if len(lean) != len(objs):
             raise HarnessError("recorder reply has a wrong length")
+        # Lean-internal: the reference point kept incrementally (refRun) is the worst point of the values handed in
+        allnum = [o for o in objs if not isinstance(o, str)]
+        if "ref" in rep and len(vals) == len(objs):
+            want = [max(Fraction(-x) for x in col) for col in zip(*allnum)] if allnum else None
+            got = None if rep["ref"] is None else [unrat(x) for x in rep["ref"]]
+            if got != want:
+                ck.mismatch(self._prefix(case, len(objs)), {"what": "model: incremental reference point (refRun) differs from the componentwise worst point",
+                                                            "refRun": rep["ref"], "worst": None if want is None else [str(x) for x in want]})
+            ck.count("stream-ref-compared")
         numeric, prev, all_ok = [], None, True
         for k, (o, v) in enumerate(zip(objs, vals)):
             if not isinstance(o, str):
@@ -1010,7 +1224,7 @@ class _Runner:
                 return
         self.submit({"kind": "archive-final", "ref": ref, "pts": cur, "exact": True}, with_variants=False, want_small=False)
 
-    def _callbacks(self, cbs, job, val, case, k):
+    def _callbacks(self, cbs, job, val, case, k, raw=None):
         """LoggerCallback / SearchEarlyStopping / TqdmCallback on the same job: the hypervolume they show is
         the recorder's value `val` (which is compared with the exact value separately)"""
         import contextlib
@@ -1064,11 +1278,13 @@ class _Runner:
 
                     shown = re.findall(r"hvi=([^\s,\]]+)", ebuf.getvalue()[pos:])
                     want = str(_tq.format_num(val))
+                    # (format_num goes through str(), which depends on the float type the recorder returned)
+                    wants = {want, str(_tq.format_num(raw))} if isinstance(raw, (float, np.floating)) else {want}
                 except Exception:  # noqa
-                    shown, want = [], None
+                    shown, want, wants = [], None, set()
                 if not shown or want is None:
                     ck.count("TqdmCallback:format-not-recognised")
-                elif shown[-1] != want:
+                elif shown[-1] not in wants:
                     ck.fail("C12|exact|TqdmCallback|shown-hvi", "TqdmCallback shows a hypervolume different from the recorder's",
                             self._prefix(case, k + 1), {"shown": shown[-1], "recorder": val, "recorder_as_tqdm_formats_it": want})
                 else:
@@ -1121,7 +1337,10 @@ def run(ck):
                "+ job streams on ONE ObjectiveRecorder object (1..40, 66..300 and 500..1100 numeric jobs in quick, up to 3100 in thorough; shapes iid / "
                "improving chain / constant-sum front with dominated new-worst rows / late new worst coordinates / duplicates / non-dyadic floats; "
                "all-negative, all-positive and mixed signs; units 1, 2^-3, 2^-30..2^-100, 2^100; failure labels mixed in, leading failure bursts, trailing "
-               "failure; tuple / list / float ndarray / int ndarray / NumPy-scalar objectives on real HPOJob or plain job objects; a second recorder "
+               "failure; tuple / list / float ndarray / int ndarray / NumPy-scalar objectives on real HPOJob or plain job objects; on 40 % of the short and "
+               "30 % of the medium streams the numeric kind of every component varies along the stream (Python int / np.int64 / np.int32 vectors first and "
+               "non-integral floats later, the reverse, alternating, int and float and bool components inside one vector, np.float32 first and float64 values "
+               "on a 2^-24 grid later, ...; the exact VALUE of every component goes to the model); a second recorder "
                "object fed alternately; LoggerCallback, two SearchEarlyStopping and TqdmCallback fed the same jobs through on_done / on_done_other), "
                "value compared after EVERY job + growing-archive histories of hypervolume calls on one array / reference object with in-place row "
                "overwrites; distinct by canonical (ref, point list) resp. stream prefix; non-trivial = >=2 objectives and "
@@ -1197,17 +1416,24 @@ def run(ck):
         # (c) the glue: ONE ObjectiveRecorder object (+ the callbacks that own one) through whole job streams
         #     short, medium and long histories; lengths around the sizes at which an implementation might
         #     start to bound / compact / cache its history (powers of two, round numbers)
+        #     A part of the streams (not additional ones) varies the NUMERIC KIND of the components along the stream:
+        #     its own generator, so that the other streams are the same with and without this dimension
+        import random
+
+        krng = random.Random((ck.seed << 12) ^ 0xC12)
         for t in range(ck.pick(90, 600)):
             m = ck.rng.choice([1, 2, 2, 2, 3, 3, 4, 5])
             length = ck.rng.choice([1, 2, 3, 5, 8, 12, 20, 40])
-            R.stream(_gen_stream(ck.rng, ck.rng.randint(1, length), m))
+            case = _gen_stream(ck.rng, ck.rng.randint(1, length), m)
+            R.stream(_add_kinds(krng, case) if krng.random() < 0.4 else case)
         for t in range(ck.pick(36, 120)):
             m = ck.rng.choice([1, 2, 2, 2, 3, 3, 3, 4])
             base = ck.rng.choice([64, 64, 100, 128, 128] + ([200, 256] if m <= 2 or ck.thorough else []) + ([512] if ck.thorough and m <= 3 else []))
             length = base + ck.rng.randint(2, 40)
             if m >= 4:
                 length = min(length, 110)
-            R.stream(_gen_stream(ck.rng, length, m, allow_float=(m <= 3 and length <= 140)))
+            case = _gen_stream(ck.rng, length, m, allow_float=(m <= 3 and length <= 140))
+            R.stream(_add_kinds(krng, case) if length <= 170 and krng.random() < 0.3 else case)
             if len(R.reqs) >= 40:
                 R.judge(nproc)
         R.judge(nproc)
